@@ -18,7 +18,8 @@ type genSetup struct {
 }
 
 func (r *Run) genBasis(filter func(*basis.Schema) bool, opts []basis.Options) (*genSetup, error) {
-	dir := filepath.Join(r.scratch, "vbasis")
+	r.nbasis++
+	dir := filepath.Join(r.scratch, fmt.Sprintf("vbasis%d", r.nbasis))
 	if err := mkdir(dir); err != nil {
 		return nil, err
 	}
